@@ -1162,8 +1162,12 @@ class Image(object):
 
         if self.mode in (ImageMode.RGB, ImageMode.U8, ImageMode.I16, ImageMode.I32):
             return False
-        elif self.mode in (ImageMode.F32, ImageMode.F64, ImageMode.F16x3):
+        elif self.mode in (ImageMode.F32, ImageMode.F64):
             return np.all(np.isnan(i))
+        elif self.mode == ImageMode.F16x3:
+            # As in update_into_maskable_buffer(), a pixel is undefined as soon
+            # as any one of its channels is NaN.
+            return np.all(np.any(np.isnan(i), axis=2))
         elif self.mode == ImageMode.RGBA:
             return np.all(i[..., 3] == 0)
         else:
